@@ -69,6 +69,15 @@ def run(tier="quick", seed=0):
                     if hasattr(vd, "natural_mat"):
                         ok = ok and torch.allclose(vd.natural_mat.grad, d2, atol=1e-8)
                     det = f"natural_vec.grad vs dL/d eta1 max diff {(vd.natural_vec.grad - d1).abs().max().item():.2e}"
+                    if hasattr(vd, "natural_tril_mat"):
+                        # the direction delivered for the triangular factor C (Theta = -1/2 C^T C) is the push-forward Cdot of the
+                        # natural-gradient direction dTheta = dL/d eta2:  -1/2 (Cdot^T C + C^T Cdot) = dTheta,  Cdot lower triangular
+                        C = vd.natural_tril_mat.detach()
+                        G = vd.natural_tril_mat.grad
+                        back = -0.5 * (G.transpose(-1, -2) @ C + C.transpose(-1, -2) @ G)
+                        lower = torch.allclose(G, G.tril(), atol=1e-12)
+                        ok = ok and lower and torch.allclose(back, d2, atol=1e-8)
+                        det += f"; -1/2 (G^T C + C^T G) vs dL/d eta2 max diff {(back - d2).abs().max().item():.2e}, G lower triangular: {lower}"
                     rec(f"natural_gradient/{cls.__name__}/batch{list(bshape)}/m{m}", {"violates": not ok, "detail": det})
                 except Exception as e:
                     from engine.runner import classify_replay_exception
